@@ -4,8 +4,10 @@ import (
 	"bytes"
 	"fmt"
 	"math/rand/v2"
+	"os"
 	"sort"
 	"testing"
+	"time"
 
 	"github.com/insomniacslk/dhcp/dhcpv4"
 	"verif/harness/gen4"
@@ -90,6 +92,7 @@ func trunc(s string) string {
 func caseGen(r *mon.Rec, idx int) {
 	rng := r.Rand("gen", idx)
 	p, e := gen4.Packet(rng, 12)
+	r.Current(replay{"gen", idx, ""})
 	r.Eval(1)
 	rp := replay{"gen", idx, ""}
 	var first []byte
@@ -190,6 +193,7 @@ func casePerm(r *mon.Rec, idx int) {
 		k = 7 + rng.IntN(6)
 		sampled = true
 	}
+	r.Current(replay{"perm", idx, ""})
 	us := drawSet(rng, k)
 	base, e := gen4.Packet(rng, 0)
 	for _, u := range us {
@@ -277,6 +281,9 @@ func casePerm(r *mon.Rec, idx int) {
 func TestCheck(t *testing.T) {
 	r := mon.New("C07")
 	defer r.Flush()
+	if os.Getenv("VERIF_REPLAY") == "" {
+		r.Watchdog(60 * time.Second)
+	}
 	var rp replay
 	if mon.ReplayCase(&rp) {
 		if rp.Stream == "perm" {
